@@ -603,27 +603,42 @@ def minc_grid(variant):
     return g
 
 
-def eval_minc(g0, fr, planes, spacing, sel, fcd=None):
+def eval_minc(g0, fr, planes, spacing, sel, fcd=None, flavour='names'):
     """One minc() call on a private copy.  Returns violations."""
     g = copy.deepcopy(g0)
     m0 = model_of(g0)
     cls = '%d-planes-%s' % (planes, 'all' if sel is None else '%d-selected' % len(sel))
     if 0. < abs(float(sum(fr)) - 1.) < 1.e-4:
         cls += '-fractions-sum-nearly-1'
+    # the selection may be given as names, as the grid's own block objects, or as the like-named block objects
+    # of another grid object (a copy of the grid, the model re-read from its file): minc resolves blocks by name
+    twin = None
+    blocks_arg = None if sel is None else list(sel)
+    if sel is not None and flavour == 'own-objects':
+        blocks_arg = [g.block[n] for n in sel]
+    elif sel is not None and flavour == 'twin-objects':
+        twin = copy.deepcopy(g0)
+        blocks_arg = [twin.block[n] for n in sel]
+    if flavour != 'names':
+        cls += '-selection-as-' + flavour
     kw = {}
     if fcd is not None:
         kw['fracture_connection_distance'] = fcd
     try:
         with quiet(), core.timelimit(10):
-            g.minc(list(fr), spacing=spacing, num_fracture_planes=planes, blocks=None if sel is None else list(sel), **kw)
+            g.minc(list(fr), spacing=spacing, num_fracture_planes=planes, blocks=blocks_arg, **kw)
     except core.CaseTimeout:
         return [('C09|minc|timeout|%s' % cls, 'minc(%r, spacing=%r, planes=%d, blocks=%r) did not return within 10 s'
                  % (fr, spacing, planes, sel))]
     except Exception as e:
         return [('C09|minc|raises:%s|%s' % (type(e).__name__, cls), 'minc(%r, spacing=%r, planes=%d, blocks=%r) raised %r'
                  % (fr, spacing, planes, sel, e))]
-    if gated(g):
-        return []
+    if twin is not None and c08.abstract(twin) != c08.abstract(g0):
+        return [('C09|minc|other-grid-changed|%s' % cls, 'minc on one grid changed the other grid whose block objects named the selection '
+                 '[minc(%r, blocks=%r as objects of a copy)]' % (fr, sel))]
+    bad = readable(g)
+    if bad:
+        return [('C09|minc|network-unreadable|%s' % cls, '%s [minc(%r, spacing=%r, planes=%d, blocks=%r)]' % (bad, fr, spacing, planes, sel))]
     m1 = model_of(g)
 
     def v(clause, what):
@@ -699,6 +714,14 @@ def run_minc(chunk, tier, rec):
                         rec.violation(sig, what, {'part': 'minc', 'variant': 'plain', 'fractions': fr, 'planes': planes,
                                                   'spacing': sp, 'blocks': sel})
                     n += 1
+        for sel in [x for x in sels if x is not None]:
+            for flavour in ('own-objects', 'twin-objects'):
+                viol = eval_minc(g0, fr, 2, 50., sel, None, flavour)
+                rec.case(('minc', fr, sel, flavour), outcome='violation' if viol else 'ok')
+                for sig, what in viol:
+                    rec.violation(sig, what, {'part': 'minc', 'variant': 'plain', 'fractions': fr, 'planes': 2, 'spacing': 50.,
+                                              'blocks': sel, 'flavour': flavour})
+                n += 1
         # boundary / inactive variants, unnormalised fractions, a finite fracture connection distance
         for variant in ('atm', 'inactive'):
             gv = minc_grid(variant)
@@ -956,7 +979,7 @@ def replay(case):
         viol, gate, g = eval_rename(base_grid(gname, atm), case['map'], case['via_t2data'])
         return viol or rename_then_reverse(g, case['map'], case['via_t2data'])
     if part == 'minc':
-        return eval_minc(minc_grid(case['variant']), case['fractions'], case['planes'], case['spacing'], case['blocks'], case.get('fcd'))
+        return eval_minc(minc_grid(case['variant']), case['fractions'], case['planes'], case['spacing'], case['blocks'], case.get('fcd'), case.get('flavour', 'names'))
     if part == 'embed2':
         gname, atm = case['base']
         return eval_embed_twice(base_grid(gname, atm), case['host'], case['scale'], case['variant']) or []
